@@ -20,7 +20,7 @@ from ..pipeline import Leg, harness_bin
 ID = 'C08'
 HARNESS_BIN = 'c08'
 RUN_MODULE = 'Run.C08'
-THEOREMS = ['C08_roundtrip', 'C08_crc_single_byte', 'C08_data_region', 'C08_payload_corruption_detected',
+THEOREMS = ['C08_roundtrip', 'C08_roundtrip_every_level', 'C08_zstd_level_is_i32', 'C08_crc_single_byte', 'C08_data_region', 'C08_payload_corruption_detected',
             'C08_glue_members_wellformed', 'C08_truncation_detected', 'C08_header_corruption_files_partial', 'C08_local_header_substitution_ignored',
             'C08_extracted_bytes_match_recorded_crc', 'C08_mode_unprotected_refuted', 'C08_stdout_dropped_refuted',
             'C08_optional_member_dropped_refuted', 'C08_roundtrip_unguarded_refuted']
@@ -221,8 +221,14 @@ def mode_sx(m):
     return b'none' if m is None else m
 
 
+def env_sx(env):
+    """the writer's SCCACHE_CACHE_ZSTD_LEVEL: None = unset -> ( ), bytes -> ( #bytes )"""
+    return [] if env is None else [bytes(env)]
+
+
 def prep_case(s):
-    return [[[o[0], mode_sx(o[1]), o[2], b''] for o in s['objs'] if o[4]], [s['so'], b''], [s['se'], b'']]
+    return [[[o[0], mode_sx(o[1]), o[2], b''] for o in s['objs'] if o[4]], [s['so'], b''], [s['se'], b''],
+            env_sx(s.get('env'))]
 
 
 def prepare(sets):
@@ -238,11 +244,13 @@ def prepare(sets):
     return res
 
 
-def content_frames(content_lists):
+def content_frames(content_lists, envs=None):
     """the REAL zstd frame of every content.  Frames depend on the contents only, so each content is packed as an
     OBJECT of a sibling entry with harmless names (put_object always stores a member): independent of the rule
     by which the real writer decides whether a stdout/stderr is stored, and of odd object names."""
-    sib = [dict(objs=[[b'm%d' % i, 0o644, c, 0, 1] for i, c in enumerate(cs)], so=b'', se=b'') for cs in content_lists]
+    envs = envs or [None] * len(content_lists)
+    sib = [dict(objs=[[b'm%d' % i, 0o644, c, 0, 1] for i, c in enumerate(cs)], so=b'', se=b'', env=ev)
+           for cs, ev in zip(content_lists, envs)]
     res = []
     for cs, (e, ms) in zip(content_lists, prepare(sib)):
         by = {bytes(m[0]): (m[1], m[2]) for m in ms} if e is not None else {}
@@ -258,7 +266,7 @@ def set_frames(sets):
     """per set: (frames of the present objects in order, stdout frame, stderr frame); '' for empty stdout/stderr"""
     lists = [[o[2] for o in s['objs'] if o[4]] + [s['so'], s['se']] for s in sets]
     out = []
-    for s, fr in zip(sets, content_frames(lists)):
+    for s, fr in zip(sets, content_frames(lists, [s.get('env') for s in sets])):
         out.append((fr[:-2], fr[-2] if content(s['so']) else b'', fr[-1] if content(s['se']) else b''))
     return out
 
@@ -495,7 +503,9 @@ def gen_read(rng, tier):
             if rng.chance(1, 4):
                 s['objs'].append([b'missing-opt', 0o644, b'', 1, 0])
             sets.append(s)
-    sets = stdio_sets(STDIO_SPECIAL) + sets
+    sets = stdio_sets(STDIO_SPECIAL) + vary_level(rng, sets)
+    sets.insert(0, dict(objs=[[b'obj', 0o644, b'\x7fELF', 0, 1], [b'dwo', 0o644, b'dw', 1, 1]], so=b'', se=b'warn', env=b'22'))
+    sets.insert(1, dict(objs=[[b'obj', 0o644, [b'text', 7, 3000], 0, 1]], so=b'', se=b'w', env=b'20'))
     preps = prepare(sets)
     for s, (e, m) in zip(sets, preps):
         if e is None:
@@ -811,7 +821,18 @@ def extract_case(s, frames, spec):
     for o in s['objs']:
         f = next(it, b'') if o[4] else b''
         objs.append([o[0], o[1] if o[1] is not None else 0o644, o[2] if o[4] else b'', f, o[3], o[4]])
-    return [objs, [s['so'], so_f], [s['se'], se_f], spec]
+    return [objs, [s['so'], so_f], [s['se'], se_f], spec, env_sx(s.get('env'))]
+
+
+LEVELS_CHEAP = [b'1', b'2', b'5', b'9', b'12', b'15', b'19', b'-1', b'-7', b'0', b'+3', b'junk']
+
+
+def vary_level(rng, sets, every=4):
+    """every n-th artifact set is written at another (cheap, non-ultra) zstd level"""
+    for i, s in enumerate(sets):
+        if i % every == every - 1:
+            s['env'] = rng.choice(LEVELS_CHEAP)
+    return sets
 
 
 def gen_extract(rng, tier):
@@ -827,6 +848,8 @@ def gen_extract(rng, tier):
                     o[4] = 0            # the compiler did not produce it
                     o[2] = b''
             sets.append(s)
+    vary_level(rng, sets)
+    sets.insert(0, dict(objs=[[b'obj', 0o755, b'\x7fELF', 0, 1]], so=b'out', se=b'', env=b'22'))
     preps = prepare(sets)
     cases = []
     for s, fr, (e, m) in zip(sets, set_frames(sets), preps):
@@ -840,7 +863,7 @@ def gen_extract(rng, tier):
 
 
 def monitor_extract(case, out):
-    objs, so, se, spec = case
+    objs, so, se, spec = case[0], case[1], case[2], case[3]
     corrupted = spec[0] != b'none'
     must_fail = any(o[5] == 0 and o[4] == 0 for o in objs)
     if not isinstance(out, list) or not out:
@@ -899,7 +922,7 @@ def monitor_extract(case, out):
 
 
 def stats_extract(case, out):
-    objs, so, se, spec = case
+    objs, so, se, spec = case[0], case[1], case[2], case[3]
     ks = ['spec=' + spec[0].decode(), 'res=' + (out[0].decode() if isinstance(out, list) and out and isinstance(out[0], bytes) else '?')]
     for o in objs:
         ks.append('mode=%o' % o[1])
@@ -921,6 +944,74 @@ def shrink_read(case):
                 yield [entry, reqs, frames, [[b'trunc', d[1]]], meta]
             else:
                 yield [entry, reqs, frames, [[b'sub', d[1], d[2]]], meta]
+
+
+# ---------------------------------------------------------------------------------------------- level leg
+ENVS_VALID = [(b'1', (0, 1)), (b'3', (0, 3)), (b'+7', (0, 7)), (b'007', (0, 7)), (b'9', (0, 9)), (b'15', (0, 15)),
+              (b'19', (0, 19)), (b'-5', (1, 5)), (b'-0', (0, 0)), (b'0', (0, 0)), (b'-131072', (1, 131072)),
+              (b'-2147483648', (1, 2147483648))]
+ENVS_ULTRA = [(b'20', (0, 20)), (b'21', (0, 21)), (b'22', (0, 22)), (b'+22', (0, 22)), (b'23', (0, 23)), (b'2147483647', (0, 2147483647))]
+ENVS_DEFAULT = [None, b'', b'-', b'+', b' 7', b'7 ', b'7.0', b'0x7', b'2147483648', b'-2147483649', b'99999999999999999999',
+                b'abc', b'--5', b'+-5', b'1e1', '３'.encode(), '٣'.encode(), b'\xff', b'7\n', b'1_0']
+
+
+def level_key_env(key):
+    return (b'-' if key[0] else b'') + str(key[1]).encode()
+
+
+def gen_level(rng, tier):
+    """the writer's zstd level is part of the case space: valid literals (incl. the ultra levels 20-22 whose frames
+    declare 32-128 MiB windows, and out-of-range values zstd clamps), and values that fall back to the default"""
+    small = [dict(objs=[[b'obj', 0o644, b'\x7fELF', 0, 1]], so=b'out\n', se=b''),
+             dict(objs=[[b'obj', 0o755, [b'text', 11, 3000], 0, 1], [b'dwo', 0o644, b'', 1, 1]], so=b'', se=[b'text', 5, 200])]
+    plan = []        # (set, env bytes or None, python's idea of the level key — only used to CHOOSE which frames to offer)
+    for env, key in ENVS_ULTRA:
+        plan.append((small[0], env, key))
+    plan.append((small[1], b'22', (0, 22)))
+    for env, key in ENVS_VALID:
+        plan.append((small[rng.below(2)], env, key))
+    for env in ENVS_DEFAULT:
+        plan.append((small[rng.below(2)], env, (0, 3)))
+    n = 12 if tier == 'quick' else 300
+    for _ in range(n):
+        env, key = rng.choice(ENVS_VALID)
+        plan.append((gen_set(rng, rng.choice(['tiny', 'small', 'small', 'mid']), nmax=3), env, key))
+    if tier == 'thorough':
+        for env, key in ENVS_ULTRA * 3:
+            plan.append((gen_set(rng, rng.choice(['tiny', 'small', 'mid']), nmax=2), env, key))
+    # frames of every set at: the default level, the level python expects, and a decoy level
+    keys_per = []
+    lists, envs = [], []
+    for st, env, key in plan:
+        ks = [(0, 3), key] + ([(0, 1)] if key != (0, 1) else [(0, 9)])
+        ks = list(dict.fromkeys(ks))
+        keys_per.append(ks)
+        for k in ks:
+            lists.append([o[2] for o in st['objs'] if o[4]] + [st['so'], st['se']])
+            envs.append(level_key_env(k))
+    frames = content_frames(lists, envs)
+    cases = []
+    it = iter(frames)
+    for (st, env, key), ks in zip(plan, keys_per):
+        cands = []
+        for k in ks:
+            fr = next(it)
+            cands.append([k[0], k[1], fr[:-2], fr[-2] if content(st['so']) else b'', fr[-1] if content(st['se']) else b''])
+        objs = [[o[0], mode_sx(o[1]), o[2], b''] for o in st['objs'] if o[4]]
+        cases.append([objs, [st['so'], b''], [st['se'], b''], env_sx(env), cands])
+    return cases
+
+
+def monitor_level(case, out):
+    env = case[3]
+    vs = monitor_pack(case[:3], out)
+    tag = 'SCCACHE_CACHE_ZSTD_LEVEL %s: ' % ('unset' if not env else repr(bytes(env[0])))
+    return [tag + v for v in vs]
+
+
+def stats_level(case, out):
+    env = case[3]
+    return ['level-env=' + ('unset' if not env else bytes(env[0])[:12].decode('latin-1'))]
 
 
 def shrink_pack(case):
@@ -1053,6 +1144,14 @@ def legs(tier):
                  '+ writer corner cases (duplicate names, names stdout/stderr, 65535/65540-byte names, no members); '
                  'compared: entry bytes (byte-identical; above 150000 bytes headers byte-identical and payloads by length+CRC) and '
                  'the read-back of every member; distinct by full case text'),
+        Leg('level', gen_level, monitor=safe(monitor_level, 'monitor'), stats=safe(stats_level, 'stats'), classify=classify,
+            shrink=shrink_pack, shards=4,
+            rule='the writer\'s configuration is part of the case space: artifact sets packed with SCCACHE_CACHE_ZSTD_LEVEL unset / '
+                 'valid i32 literals (1..19, negative, signs, leading zeros, the ultra levels 20-22 with 32-128 MiB windows, values '
+                 'zstd clamps) / values that must fall back to 3 (blanks, overflow, non-ASCII digits, not unicode); the model parses '
+                 'the variable itself and packs with the real frames of THAT level (offered next to the frames of two other levels), '
+                 'so entry bytes tie the parse; the read-back of every member ties "every level unpacks"; 4 shards (ultra levels '
+                 'need ~1 GB per encoder)'),
         Leg('read', gen_read, monitor=safe(monitor_read, 'monitor'), stats=safe(stats_read, 'stats'), classify=classify,
             shrink=shrink_read, nontrivial=safe(nontrivial_read, 'nontrivial'),
             rule='entries <= 420 bytes: EVERY truncation point and all 255 substitutions at EVERY offset (8 offsets per case); '
